@@ -287,6 +287,26 @@ def terminal_racy(w):
         k for k in fwd.vals if not jeq(fwd.vals[k].value, bwd.vals[k].value if k in bwd.vals else None))
 
 
+def output_stale_kf(w, name, vnode):
+    """True when this world's rendered output `name` is explained by the known merge finding
+    (an inherited older value overriding a newer one at the terminal merge)."""
+    from dst.world import stale_explains
+    if vnode[0] != "ctx":
+        return False
+    L = w.ledger
+    leaves = L.leaves()
+    if len(leaves) < 2:
+        return False
+    fwd = None
+    for ref in leaves:
+        fwd = ref if fwd is None else L.merge_ctx(fwd, ref)
+    got = ((w.snap or {}).get("output") or {}).get(name)
+    exp = fwd.vals.get(vnode[1])
+    if exp is not None and jeq(exp.value, got):
+        return False
+    return stale_explains(vnode[1], got, fwd, leaves)
+
+
 class _FakeSched(object):
     def __init__(self, opts):
         self.opts = opts
@@ -438,11 +458,15 @@ class C09(object):
             return Violation("C09", "same_outcome", "executed tasks differ: with pause %r, without %r"
                              % (sorted((ep - eu).items()), sorted((eu - ep).items())))
         if wp.status == "succeeded":
-            errp = collections.Counter(canon(e) for e in wp.snap["errors"])
-            erru = collections.Counter(canon(e) for e in wu.snap["errors"])
+            # which items of an already failing with-items task still get to run depends on when
+            # the task goes dormant; entries are compared by what failed, not by item payload
+            def ekey(e):
+                return canon([e.get("message"), e.get("task_id"), e.get("task_transition_id")])
+            errp = set(ekey(e) for e in wp.snap["errors"])
+            erru = set(ekey(e) for e in wu.snap["errors"])
             if errp != erru:
                 return Violation("C09", "same_outcome", "errors differ: with pause %r, without %r"
-                                 % (sorted((errp - erru).keys())[:2], sorted((erru - errp).keys())[:2]))
+                                 % (sorted(errp - erru)[:2], sorted(erru - errp)[:2]))
             racy = terminal_racy(wp) | terminal_racy(wu)
             op_, ou_ = wp.snap.get("output") or {}, wu.snap.get("output") or {}
             for name, vnode in wp.p.get("output") or []:
@@ -477,13 +501,223 @@ class C09(object):
         if case.get("ops_unpaused") is None:
             prog = _prog(case["ast"])
             profile = {"name": "C09", "enabled": ["C09"], "world": dict(kf_props=kf_props())}
-            ops, ok = driver.shrink_ops(prog, case["ops"], profile, vi["prop"], vi["clause"], opts=case.get("world_opts"))
+            ops, ok = driver.shrink_ops(prog, case["ops"], profile, vi["prop"], vi["clause"], kf=vi.get("kf"),
+                                        opts=case.get("world_opts"))
+            if ok:
+                case = dict(case, ops=ops)
+        return case
+
+
+# =========================================================================== C17
+
+class RerunScheduler(driver.Scheduler):
+    """Drives a run to a terminal status, then lets the operator request a rerun of a seeded kind.
+    Re-executed actions succeed ("if the re-executed actions now succeed ...")."""
+
+    def __init__(self, seed, profile, plan, forced_all=None):
+        driver.Scheduler.__init__(self, seed, profile)
+        self.plan = plan
+        self.forced_all = forced_all          # K twin: these tasks succeed the first time
+        self.forced_after = None              # main run: tasks forced to succeed after the rerun
+        self.floor = None
+        self.rerun_tried = False
+        self.rerun_accepted = False
+        self.rerun_reqs = None
+        self.cause_clean = False
+        self.status_before = None
+        self.active_probe_done = False
+
+    def outcome_for(self, a):
+        x = a["x"]
+        shape = (self.prog["tasks"].get(a["task"]) or {}).get("shape", "token")
+        forced = (self.forced_all is not None and a["task"] in self.forced_all) or \
+                 (self.forced_after is not None and a["task"] in self.forced_after and x.xid >= self.floor)
+        if forced:
+            _, result = self.outcome(a["task"], 1, 1, a["item"], shape)
+            return "succeeded", result
+        return self.outcome(a["task"], x.visit, x.attempt, a["item"], shape)
+
+    def inject(self):
+        w = self.world
+        if self.plan == "while_active" and not self.active_probe_done and self.pos == 2 and w.c is not None \
+                and w.status not in TERMINAL_WF:
+            self.active_probe_done = True
+            self.do(["rerun", None])
+
+    def settle(self):
+        w = self.world
+        if w.c is None or self.rerun_tried or w.status not in TERMINAL_WF or self.forced_all is not None:
+            return False
+        self.rerun_tried = True
+        L = w.ledger
+        K = self.K
+        plan = self.plan
+        self.status_before = w.status
+        failed = [x for x in L.execs if x.xid in L.unhandled and x.kind != "bogus"]
+        reqs = None
+        if plan in ("default", "explicit_failed", "reset_items") and w.status == "succeeded":
+            # a default rerun of a succeeded workflow has nothing to select (a known finding);
+            # spend most of those runs on explicit requests instead
+            if K.u("ops", "succ_default") < 0.85:
+                plan = "explicit_mix"
+        if plan == "explicit_failed" and failed:
+            reqs = [[x.task, x.route, False] for x in failed]
+        elif plan == "reset_items":
+            wi = [x for x in failed if x.items is not None]
+            if wi:
+                reqs = [[wi[0].task, wi[0].route, True]]
+        elif plan == "explicit_mix":
+            done = [x for x in L.execs if x.state == "done" and x.kind != "bogus"]
+            if done:
+                n = 1 + K.below(3, "ops", "mixn")
+                reqs = []
+                for j in range(n):
+                    x = done[K.below(len(done), "ops", "mix", j)]
+                    reqs.append([x.task, x.route, K.u("ops", "mixreset", j) < 0.2])
+                if K.u("ops", "mixdup") < 0.3:
+                    reqs.append(list(reqs[0]))
+        elif plan == "nonexistent":
+            reqs = [["nosuch_zz", 0, False]]
+        self.rerun_reqs = reqs
+        self.cause_clean = bool(failed) and not L.fail_cmd and not L.runtime_errors and not L.unsatisfied_barriers() \
+            and w.status == "failed"
+        self.floor = len(L.execs)
+        ok = self.do(["rerun", reqs])
+        self.rerun_accepted = bool(ok)
+        if ok:
+            self.forced_after = set(x.task for x in (w.rerun_selected or []))
+            n = self.do(["dispatch"])
+            g = 0
+            while n and g < 20:
+                g += 1
+                n = self.do(["dispatch"])
+            return True
+        return False
+
+
+class C17(object):
+    prop = "C17"
+    RUNS = {"quick": 1500, "thorough": 45000}
+    BUDGET_S = {"quick": 75, "thorough": 560}
+    RULE = ("runs are driven to failed (task failure, item failure, fail command, runtime error, unreachable join) or succeeded; "
+            "then the operator requests a rerun: default / explicitly the failed tasks / a mix of executed tasks incl. downstream "
+            "pairs and duplicates / reset_items / a non-existent task / while the workflow is active; re-executed actions succeed; "
+            "offers after the request are matched against rerun entitlements; for default and explicit-failed reruns after plain task "
+            "failures a twin in which those tasks succeed the first time gives the expected final status and output; "
+            "non-trivial = an accepted rerun in a run that had >= 1 completed sibling branch")
+    ASSUMPTIONS = COMMON_ASSUMPTIONS + [
+        "convergence is compared only for acyclic re-executed tasks and for outputs that are not order-decided",
+        "the provider keeps the results of items that had succeeded when a with-items task is re-executed without reset_items"]
+    PLANS = ["default", "default", "default", "explicit_failed", "explicit_failed", "explicit_mix", "explicit_mix",
+             "reset_items", "nonexistent", "while_active"]
+
+    def profile(self, seed, tier):
+        K = Keyed(seed)
+        return {"name": "C17", "enabled": ["C17"], "gates": dict(join_partial=False, join_in_loop=False),
+                "faults": dict(p_fail=K.choice([0.15, 0.3, 0.3, 0.5], "pf17"), poll_skip=0.05, restart=0.03),
+                "world": dict(kf_props=kf_props()), "forbid_features": ["join_partial", "join_in_loop"]}
+
+    def evaluate(self, seed, tier):
+        profile = self.profile(seed, tier)
+        K = Keyed(seed)
+        prog = driver.make_program(K, profile)
+        plan = K.choice(self.PLANS, "ops", "plan")
+        sm = RerunScheduler(seed, dict(profile, prog=prog), plan)
+        res = {"outcome": "ok", "stats": sm.stats, "final": None, "nontrivial": False, "sig": None}
+        try:
+            wm = sm.run()
+        except (Violation, KnownFindingStop, Abort, GeneratorError) as e:
+            res["outcome"] = driver.classify(e)
+            res["error"] = e
+            if res["outcome"] in ("violation", "kf"):
+                res["case"] = self._case(prog, sm.ops, None, sm.opts, plan)
+            return res
+        res["final"] = wm.status
+        res["sim_s"] = sm.heap.now
+        res["states"] = [list(s) for s in wm.abstract_states]
+        sm.stats["plan_" + plan] = 1
+        if not sm.rerun_accepted:
+            return res
+        L = wm.ledger
+        siblings = len(set(x.task for x in L.execs[: sm.floor or 0] if x.state == "done")) >= 2
+        res["nontrivial"] = siblings
+        res["sig"] = digest([canon(wm.definition), wm.sched_sig])
+        if res["nontrivial"]:
+            res["sample"] = {"tasks": len(prog["tasks"]), "features": sorted(prog["_features"]), "plan": plan,
+                             "requests": sm.rerun_reqs, "status_before": sm.status_before, "final_status": wm.status,
+                             "re_executed": sorted(sm.forced_after or []), "ops": sm.ops[-25:]}
+        # convergence twin
+        forced = sm.forced_after or set()
+        if plan in ("default", "explicit_failed") and sm.cause_clean and forced and wm.status in TERMINAL_WF \
+                and not any(lang.in_cycle(prog, t) for t in forced):
+            sk = RerunScheduler(seed, dict(profile, prog=prog), "none", forced_all=forced)
+            try:
+                wk = sk.run()
+            except (Violation, KnownFindingStop, Abort, GeneratorError) as e:
+                sm.stats["twin_aborted"] = 1
+                return res
+            sm.stats["probe_convergence_twin"] = 1
+            v = self.compare(wm, wk)
+            if v is not None:
+                res["outcome"] = driver.classify(v)
+                res["error"] = v
+                res["nontrivial"] = False
+                res["case"] = self._case(prog, sm.ops, sk.ops, sm.opts, plan)
+        return res
+
+    def compare(self, wm, wk):
+        if wm.status != wk.status:
+            return Violation("C17", "converges", "after the rerun the workflow ended %s; with those tasks succeeding the "
+                             "first time it ends %s" % (wm.status, wk.status))
+        if wm.status == "succeeded":
+            racy = terminal_racy(wm) | terminal_racy(wk)
+            om, ok_ = wm.snap.get("output") or {}, wk.snap.get("output") or {}
+            for name, vnode in wm.p.get("output") or []:
+                if lang.reads(vnode) & racy:
+                    continue
+                if not jeq(om.get(name), ok_.get(name)):
+                    if output_stale_kf(wm, name, vnode) or output_stale_kf(wk, name, vnode):
+                        return KnownFindingStop("KF-stale-inherited-value-at-merge", "C17", "converges",
+                                                "output %s differs through the terminal merge finding" % name,
+                                                ["stale_inherited_value_at_merge", "terminal_merge"])
+                    return Violation("C17", "converges", "output %s = %s after the rerun, %s in the clean run"
+                                     % (name, canon(om.get(name))[:100], canon(ok_.get(name))[:100]))
+        return None
+
+    def _case(self, prog, mops, kops, opts, plan):
+        return {"mode": "rerun-twin", "ast": _ast(prog), "definition": lang.render(prog), "ops": copy.deepcopy(mops),
+                "ops_clean": copy.deepcopy(kops), "plan": plan,
+                "world_opts": dict((k, v) for k, v in opts.items() if k != "kf_props")}
+
+    def replay_case(self, case, as_prop=None):
+        prog = _prog(case["ast"])
+        profile = {"name": "C17", "enabled": [as_prop or "C17"], "world": dict(kf_props=kf_props())}
+        opts = dict(case.get("world_opts") or {})
+        opts["kf_through"] = True
+        rm = driver.replay(prog, case["ops"], profile, opts)
+        if rm["outcome"] != "ok" or not case.get("ops_clean"):
+            return rm
+        rk = driver.replay(prog, case["ops_clean"], profile, opts)
+        if rk["outcome"] != "ok":
+            return rk
+        v = self.compare(rm["world"], rk["world"])
+        if v is not None:
+            return {"outcome": driver.classify(v), "error": v, "world": rm["world"], "stats": {}}
+        return rm
+
+    def shrink(self, case, vi):
+        if case.get("ops_clean") is None:
+            prog = _prog(case["ast"])
+            profile = {"name": "C17", "enabled": ["C17"], "world": dict(kf_props=kf_props())}
+            ops, ok = driver.shrink_ops(prog, case["ops"], profile, vi["prop"], vi["clause"], kf=vi.get("kf"),
+                                        opts=case.get("world_opts"))
             if ok:
                 case = dict(case, ops=ops)
         return case
 
 
 def register(reg):
+    reg["C17"] = C17()
     reg["C19"] = C19()
     reg["C08"] = C08()
     reg["C09"] = C09()
